@@ -341,6 +341,7 @@ def check_rc(pid, cfg, tier, seed):
             env = dict(senv, VERIF_SEED=str(seed * 1000 + 500 + i), VERIF_TAG="s%d" % i)
             logf = open(os.path.join(swork, "s%d.log" % i), "w")
             srun.append((i, subprocess.Popen([sexe] + cfg.get("args", []), env=env, stdout=logf, stderr=subprocess.STDOUT), logf))
+        san_seen = set()
         san_cov = dict(flavour="clang ASan+UBSan (-fno-sanitize-recover)", processes=len(srun), evaluations=0, failures=0)
         for i, p, logf in srun:
             p.wait()
@@ -363,8 +364,9 @@ def check_rc(pid, cfg, tier, seed):
                     sig = sm.get("failure_signature", "")
                     # a failure the release build shows as well is reported by stage 2; here only what needs the sanitizer
                     rel_fails = run_replay(exe, ff)[0] == "fail"
-                    if rel_fails:
+                    if rel_fails or (name, sig) in san_seen:
                         continue
+                    san_seen.add((name, sig))
                     res = [run_replay(sexe, ff, env_extra=senv) for _ in range(3)]
                     if all(x[0] == "fail" for x in res):
                         san_cov["failures"] += 1
